@@ -90,6 +90,8 @@ static void *ll_realloc_unreachable(void *p, size_t n) { (void)p; (void)n; __CPR
 #define LL_realloc realloc
 #endif
 #endif
+#define LL_malloc_const malloc
+#define LL_calloc_const calloc
 #define LL_free free
 #define LL_memcpy memcpy
 #define LL_memmove memmove
